@@ -4,20 +4,25 @@
 (* At every terminal state one replayable record is printed: configuration, operations, schedule, expected results. *)
 EXTENDS TwApi, Json
 
-CONSTANTS Mode,      \* "interleave" | "history" | "response"
+CONSTANTS Mode,      \* "interleave" | "history" | "historyd" (histories over operations that differ in the SHAPE of their data) | "response"
           MaxHist, Emit_
 VARIABLES hist
 vars == <<avars, hist>>
 
-Ops15 == {Op("String", "ok"), Op("String", "bad"), Op("String", "missing"), Op("Response", "ok"), Op("Response", "bad"),
+Hist == Mode \in {"history", "historyd"}
+\* historyd: the data holds a value of one of two different struct types that are both called "row", or the same
+\* template is rendered with a receiver of another type than before (string, array, integer)
+OpsD == {Op("String", "ok"), Op("String", "bad"), Op("String", "row1"), Op("String", "row2"), Op("EvalString", "row1"), Op("EvalString", "row2"),
+         Op("String", "polyS"), Op("String", "polyA"), Op("String", "polyI"), Op("Response", "polyA"), Op("Response", "polyS")}
+Ops15 == IF Mode = "historyd" THEN OpsD ELSE
+         {Op("String", "ok"), Op("String", "bad"), Op("String", "missing"), Op("Response", "ok"), Op("Response", "bad"),
           Op("Response", "missing"), Op("EvalString", "ok"), Op("EvalString", "bad"), Op("EvalFile", "ok")}
          \cup (IF Mode # "response" THEN {Op("String", "bad-in-loop")} ELSE {})     \* fails inside a loop after some passes produced output
          \cup (IF Mode = "response" THEN {Op("Response", pg) : pg \in {"bad-in-component", "bad-in-layout", "bad-at-start", "bad-in-loop"}} ELSE {})
          \cup (IF Mode = "history" THEN {Op("String", "setvar"), Op("String", "getvar"), Op("EvalString", "setvar"), Op("EvalString", "getvar"),
-                                         Op("Response", "getvar"),
-                                         \* the data holds a value of one of two different struct types that are both called "row"
-                                         Op("String", "row1"), Op("String", "row2"), Op("EvalString", "row1"), Op("EvalString", "row2")} ELSE {})
-Cfgs == {[dir |-> "t", ext |-> ".tw", errorPage |-> e, debug |-> d] : e \in {"", "err"}, d \in BOOLEAN}
+                                         Op("Response", "getvar")} ELSE {})
+Cfgs == IF Mode = "historyd" THEN {[dir |-> "t", ext |-> ".tw", errorPage |-> "", debug |-> FALSE]}
+        ELSE {[dir |-> "t", ext |-> ".tw", errorPage |-> e, debug |-> d] : e \in {"", "err"}, d \in BOOLEAN}
 
 Init == /\ \E c \in Cfgs : ApiInit(c)
         /\ hist = <<>>
@@ -27,18 +32,18 @@ Next == \/ \E g \in G : \E o \in Ops15 :
              /\ Begin(g, o)
              /\ (Mode = "interleave" => ~Started(g))
              /\ (Mode = "response" => o.k = "Response" /\ ~Started(g))
-             /\ (Mode = "history" => Len(hist) < MaxHist)
+             /\ (Hist => Len(hist) < MaxHist)
              /\ hist' = Append(hist, [g |-> g, op |-> o])
         \/ \E g \in G : StepOf(g) /\ UNCHANGED hist
-        \/ \E g \in G : Mode = "history" /\ Len(hist) < MaxHist /\ Again(g) /\ UNCHANGED hist
+        \/ \E g \in G : Hist /\ Len(hist) < MaxHist /\ Again(g) /\ UNCHANGED hist
 Spec == Init /\ [][Next]_vars
 
 \* the results of all operations completed so far are kept in the record through hist/res at print time
-Record == [cfg |-> cfg, errpage |-> ErrPageExists, mode |-> Mode,
+Record == [cfg |-> cfg, errpage |-> ErrPageExists, mode |-> IF Hist THEN "history" ELSE Mode,
            ops |-> hist,
            expok |-> [k \in 1..Len(hist) |-> Solo(hist[k].op, cfg, ErrPageExists).ok],
            sched |-> sched,
            expect |-> [g \in G |-> IF op[g].k = "Response" THEN Solo(op[g], cfg, ErrPageExists).body ELSE [page |-> "n/a", shows |-> {}]]]
-Terminal == IF Mode = "history" THEN AllDone /\ Len(hist) >= 1 ELSE AllDone /\ \A g \in G : Started(g)
+Terminal == IF Hist THEN AllDone /\ Len(hist) >= 1 ELSE AllDone /\ \A g \in G : Started(g)
 Gen == (Terminal /\ Emit_) => PrintT(ToJson(Record))
 =============================================================================
